@@ -133,16 +133,24 @@ func (c *Ctx) writerCriticalSpan() {
 	n := 0
 	var reserve, commit, write *ssa.Call
 	var encodes []*ssa.Call
-	for _, call := range ir.Calls(fn) {
-		cl, ok := call.(*ssa.Call)
+	el := c.entryLocks()
+	isRingOp := func(call ssa.CallInstruction) bool {
+		for _, m := range []string{"WriteWait", "WriteCommit", "Write"} {
+			if ir.IsMethod(call.Common(), pkgService, "buffer", m) {
+				return true
+			}
+		}
+		return call.Common().IsInvoke() && call.Common().Method.Name() == "Encode"
+	}
+	// the writer's ring operations, in the writer itself or in helpers it calls
+	for _, h := range c.hostedCalls(fn, isRingOp, 2) {
+		cl, ok := h.Call.(*ssa.Call)
 		if !ok {
 			continue
 		}
-		isRing := false
-		what := ""
+		what := "Encode"
 		for _, m := range []string{"WriteWait", "WriteCommit", "Write"} {
 			if ir.IsMethod(cl.Common(), pkgService, "buffer", m) {
-				isRing = true
 				what = "buffer." + m
 				switch m {
 				case "WriteWait":
@@ -154,18 +162,26 @@ func (c *Ctx) writerCriticalSpan() {
 				}
 			}
 		}
-		if cl.Common().IsInvoke() && cl.Common().Method.Name() == "Encode" {
-			isRing = true
-			what = "Encode"
+		if what == "Encode" {
 			encodes = append(encodes, cl)
 		}
-		if !isRing {
-			continue
-		}
 		n++
-		st := fi.Before[cl]
-		c.R.Check(st.Must.HasClass("service.service.wmu"), ruleL7, fmt.Sprintf("%s:%s-under-wmu", fn.Name(), what), c.P.InstrPos(cl), "executes with service.wmu held on every path",
-			what+" in the packet writer can execute without the per-connection write mutex: two goroutines delivering to the same connection reserve the same ring position / interleave inside a packet (must-lockset "+st.Must.String()+")")
+		host := cl.Parent()
+		held := false
+		must := ""
+		if hfi := lk.Funcs[host]; hfi != nil {
+			st := hfi.Before[cl]
+			held = st.Must.HasClass("service.service.wmu")
+			must = st.Must.String()
+		}
+		if !held && host != fn {
+			// a helper inherits the locks held at all of its call sites
+			if _, ok := el[host]["service.service.wmu"]; ok {
+				held = true
+			}
+		}
+		c.R.Check(held, ruleL7, fmt.Sprintf("%s:%s-under-wmu", fn.Name(), what), c.P.InstrPos(cl), "executes with service.wmu held on every path",
+			what+" in the packet writer can execute without the per-connection write mutex: two goroutines delivering to the same connection reserve the same ring position / interleave inside a packet (must-lockset "+must+")")
 	}
 	c.R.Count("ring operations in the packet writer", n)
 	c.R.Floor("ring operations in the packet writer (WriteWait, Encode x2, Write, WriteCommit)", n, 5)
@@ -285,6 +301,12 @@ func (c *Ctx) ringSideOwnership() {
 			case "out/producer":
 				want = "only inside the packet writer (under wmu)"
 				okc = fn == r.RingWrite
+				if !okc {
+					// a helper of the writer: every call of it is made with the write mutex held, and so is this operation
+					if _, held := c.entryLocks()[fn]["service.service.wmu"]; held && c.onlyCalledFrom(fn, r.RingWrite) {
+						okc = true
+					}
+				}
 			case "out/consumer":
 				want = "only from the sender goroutine"
 				okc = len(roots) == 1 && roots[0] == "go:"+r.Sender.Name()
